@@ -52,7 +52,7 @@ TECHNIQUE = ("reference-model differential monitor: per-op lock-step comparison 
 ENGINES = ["harness", "refsem", "trace"]
 ASSUMPTIONS = [
     "xv.refsem implements the MLIR/LLVM language semantics of the modelled ops (cross-checked here against the interpreter; disagreements were triaged by hand)",
-    "index is 64 bit in program-level runs (Interpreter(index_bitwidth=64), refsem.INDEX_W=64); 32-bit index is covered at op level only",
+    "index is 32 or 64 bit (both interleaved inside every worker process, at op level and per program: Interpreter(index_bitwidth=w), refsem.INDEX_W=w)",
     "inputs on which refsem reports poison / UB / unsupported are excluded and counted, not compared",
     "NaN payloads and NaN signs are not compared (any NaN == any NaN)",
 ]
@@ -874,9 +874,12 @@ class Gen15(genprog.Gen):
     """genprog.Gen with a vocabulary filter and more control flow: scf.while, scf.if/for with 0..2 results,
     typed scf.for, internal / recursive / external calls, multi-block cf bodies. Text only."""
 
-    def __init__(self, rng, vocab=None, safe_shift=0.85, **kw):
+    def __init__(self, rng, vocab=None, safe_shift=0.85, idxw=64, **kw):
         super().__init__(rng, **kw)
         self.vocab = vocab
+        self.idxw = idxw      # index constants must fit the index width the program will be run with
+        self.forced = []      # helpers that main calls unconditionally (the recursive ones)
+        self.features = set()
         self.safe_shift = safe_shift
         self.helpers = []  # (name, argtypes, rettypes)
         self.nlabel = 0
@@ -889,6 +892,15 @@ class Gen15(genprog.Gen):
 
     def ok(self, name):
         return self.vocab is None or name in self.vocab
+
+    def const(self, t, lines, ind):
+        if t == "index" and self.idxw == 32:
+            w = 32
+            c = [0, 1, -1, 2, 3, w - 1, w, (1 << (w - 1)) - 1, -(1 << (w - 1)), 5, 7, -8, 100, 65536, -65537]
+            v = self.fresh()
+            lines.append(f"{ind}{v} = arith.constant {self.rng.choice(c)} : index")
+            return v
+        return super().const(t, lines, ind)
 
     def label(self):
         self.nlabel += 1
@@ -1154,14 +1166,21 @@ class Gen15(genprog.Gen):
             cands.append(("ext_i32", ["i32"], ["i32"]))
         if not cands:
             return False
-        name, ats, rts = rng.choice(cands)
+        return self.emit_call(env, lines, ind, rng.choice(cands))
+
+    def emit_call(self, env, lines, ind, helper, deep=False):
+        rng = self.rng
+        name, ats, rts = helper
         args = [self.pick(env, t, lines, ind) for t in ats]
         if name.startswith("rec"):
-            # bounded recursion depth
-            m = self.small_const(lines, ind, 7, "index")
-            b2 = self.fresh()
-            lines.append(f"{ind}{b2} = arith.andi {args[0]}, {m} : index")
-            args[0] = b2
+            # bounded recursion depth: a small constant, or a symbolic value masked to [0, 7]
+            if deep and rng.random() < 0.7:
+                args[0] = self.small_const(lines, ind, rng.choice([2, 3, 4, 5]), "index")
+            else:
+                m = self.small_const(lines, ind, 7, "index")
+                b2 = self.fresh()
+                lines.append(f"{ind}{b2} = arith.andi {args[0]}, {m} : index")
+                args[0] = b2
         v = self.fresh()
         sig = f"({', '.join(ats)}) -> " + (rts[0] if len(rts) == 1 else f"({', '.join(rts)})")
         if len(rts) == 1:
@@ -1291,9 +1310,16 @@ class Gen15(genprog.Gen):
         else:
             for _ in range(n):
                 self.stmt(env, lines, "  ", 0)
+        must = []
+        if name == "main":
+            for h in self.forced:
+                n0 = len(env)
+                self.emit_call(env, lines, "  ", h, deep=True)
+                must.extend(env[n0:])
         ctl = [x for x in env if x[0] in self.ctl]
         rets = [rng.choice(ctl) if ctl and rng.random() < 0.65 else rng.choice(env)
                 for _ in range(rng.randint(1, 4))] if env else []
+        rets = must + rets[:max(1, 4 - len(must))]
         if not rets:
             rets = [(self.const("i32", lines, "  "), "i32")]
         sig = ", ".join(f"{a}: {t}" for a, t in args)
@@ -1321,7 +1347,71 @@ class Gen15(genprog.Gen):
                 f"  func.return %r : {t}\n}}\n")
         return text, ["index", t], [t]
 
-    def program(self, cfg=False, nhelpers=0, rec=False):
+    def cf_rec_helper(self, name, callee, t, variant):
+        """Multi-block (cf) function that re-enters itself (callee == name) or its partner (mutual recursion) with a
+        decreasing counter. Values defined BEFORE the call (entry block arguments, entry block ops, ops of the
+        calling block) are used AFTER it, so a frame whose bindings are clobbered by the callee changes the result."""
+        rng = self.rng
+        ind = "  "
+        base, recb, exitb, pre1, pre2, prej = [self.label() for _ in range(6)]
+        lines = []
+        env = [("%n", "index"), ("%a", t)]
+        lines.append(f"{ind}%c0 = arith.constant 0 : index")
+        lines.append(f"{ind}%c1 = arith.constant {1 if variant != 'step2' else 2} : index")
+        self.body(env, lines, ind, 2, (0, 1, 2))
+        p = self.recur(env, lines, ind, "%a", t)
+        if variant == "diamond":
+            # a diamond in front of the recursion: more executed blocks (= more scopes pushed) per activation
+            c, q = self.fresh(), self.fresh()
+            lines.append(f"{ind}{c} = arith.cmpi slt, %a, {p} : {t}")
+            lines.append(f"{ind}cf.cond_br {c}, ^{pre1}, ^{pre2}")
+            lines.append(f"^{pre1}:")
+            y1 = self.recur(list(env), lines, ind, p, t)
+            lines.append(f"{ind}cf.br ^{prej}({y1} : {t})")
+            lines.append(f"^{pre2}:")
+            y2 = self.recur(list(env), lines, ind, "%a", t)
+            lines.append(f"{ind}cf.br ^{prej}({y2} : {t})")
+            lines.append(f"^{prej}({q}: {t}):")
+            env.append((q, t))
+            p2 = q
+        else:
+            p2 = p
+        lines.append(f"{ind}%stop = arith.cmpi sle, %n, %c0 : index")
+        lines.append(f"{ind}cf.cond_br %stop, ^{base}, ^{recb}")
+        lines.append(f"^{base}:")
+        eb = list(env)
+        self.body(eb, lines, ind, 2, (0, 1))
+        xb = self.recur(eb, lines, ind, p2, t)
+        lines.append(f"{ind}cf.br ^{exitb}({xb} : {t})")
+        lines.append(f"^{recb}:")
+        er = list(env)
+        lines.append(f"{ind}%n1 = arith.subi %n, %c1 : index")
+        b = self.recur(er, lines, ind, "%a", t)
+        lines.append(f"{ind}%rr = func.call @{callee}(%n1, {b}) : (index, {t}) -> {t}")
+        # after the call: values of this activation defined before it
+        lines.append(f"{ind}%rn = arith.index_cast %n : index to {t}")
+        lines.append(f"{ind}%r1 = arith.addi %rr, %a : {t}")
+        lines.append(f"{ind}%r2 = arith.addi %r1, %rn : {t}")
+        lines.append(f"{ind}%r3 = arith.xori %r2, {p} : {t}")
+        lines.append(f"{ind}%r4 = arith.addi %r3, {b} : {t}")
+        lines.append(f"{ind}%r5 = arith.subi %r4, {p2} : {t}")
+        if rng.random() < 0.4:
+            # a second call in the same activation, its counter read after the first call returned
+            lines.append(f"{ind}%n2 = arith.subi %n1, %c1 : index")
+            lines.append(f"{ind}%rs = func.call @{callee}(%n2, %r5) : (index, {t}) -> {t}")
+            lines.append(f"{ind}%r6 = arith.addi %rs, %a : {t}")
+            lines.append(f"{ind}%r7 = arith.xori %r6, %rr : {t}")
+            lines.append(f"{ind}cf.br ^{exitb}(%r7 : {t})")
+        else:
+            lines.append(f"{ind}cf.br ^{exitb}(%r5 : {t})")
+        lines.append(f"^{exitb}(%res: {t}):")
+        return (f"func.func @{name}(%n: index, %a: {t}) -> {t} {{\n" + "\n".join(lines) +
+                f"\n{ind}func.return %res : {t}\n}}\n")
+
+    CF_REC_OPS = ("cf.br", "cf.cond_br", "func.call", "arith.subi", "arith.cmpi", "arith.addi", "arith.xori",
+                  "arith.index_cast")
+
+    def program(self, cfg=False, nhelpers=0, rec=False, crec=False, mrec=False):
         parts = [self.prelude()]
         for k in range(nhelpers):
             name = f"h{k}"
@@ -1334,6 +1424,24 @@ class Gen15(genprog.Gen):
             text, ats, rts = self.rec_helper("rec0")
             parts.append(text)
             self.helpers.append(("rec0", ats, rts))
+        ints = [x for x in self.int_types if x not in ("i1", "index")] or ["i32"]
+        if all(self.ok(x) for x in self.CF_REC_OPS):
+            if crec:
+                t = self.rng.choice(ints)
+                parts.append(self.cf_rec_helper("rec_c0", "rec_c0", t, self.rng.choice(["plain", "diamond", "step2"])))
+                h = ("rec_c0", ["index", t], [t])
+                self.helpers.append(h)
+                self.forced.append(h)
+                self.features.add("cf-recursion-direct")
+            if mrec:
+                t = self.rng.choice(ints)
+                parts.append(self.cf_rec_helper("rec_ma", "rec_mb", t, self.rng.choice(["plain", "diamond"])))
+                parts.append(self.cf_rec_helper("rec_mb", "rec_ma", t, self.rng.choice(["plain", "diamond"])))
+                h = ("rec_ma", ["index", t], [t])
+                self.helpers.append(h)
+                self.helpers.append(("rec_mb", ["index", t], [t]))
+                self.forced.append(h)
+                self.features.add("cf-recursion-mutual")
         text, ats, rts = self.func("main", cfg=cfg)
         parts.append(text)
         return "".join(parts), ats, rts
@@ -1388,7 +1496,7 @@ class Monitor:
             R.viol(f"crash:{type(e).__name__}:{name}",
                    f"{name} on {tuple(inputs)!r} inside a program: {type(e).__name__}: {str(e).splitlines()[0] if str(e) else ''}",
                    {"program": self.text, "args": self.args, "op": name, "operands": [jval(v) for v in inputs],
-                    "replay_job": {"kind": "prog1", "text": self.text, "args": self.args}})
+                    "replay_job": {"kind": "prog1", "text": self.text, "args": self.args, "idxw": O.idxw}})
             return E.OpImplResult(tuple(O.to_interp(v, r.type) for v, r in zip(ref[1], op.results)), None)
         R.inc("prog_op_executions_compared")
         R.inc("compared_in_programs:" + name)
@@ -1403,7 +1511,7 @@ class Monitor:
         R.viol(key, "in program: " + summary,
                {"program": self.text, "args": self.args, "op": name + O.describe(op), "operands": [jval(v) for v in inputs],
                 "got": [jval(g) for g in res.values],
-                "replay_job": {"kind": "prog1", "text": self.text, "args": self.args}})
+                "replay_job": {"kind": "prog1", "text": self.text, "args": self.args, "idxw": O.idxw}})
         return E.OpImplResult(repaired, res.terminator_value)
 
 
@@ -1413,16 +1521,20 @@ def _vocab(E, supported_only):
     return set(E.registered) | {"func.call"}
 
 
-def gen_program(E, rng, profile):
+def gen_program(E, rng, profile, force_idxw=None):
     """profile: 'sup' (only ops the interpreter registers) | 'full' (whole refsem vocabulary)."""
     vocab = _vocab(E, profile == "sup")
     allow_float = rng.random() < 0.6
     int_types = genprog.INT_T if rng.random() < 0.8 else rng.choice([["i1", "i32", "index"], ["i8", "i64", "index", "i1"]])
+    idxw = 32 if rng.random() < 0.4 else 64
+    if force_idxw:
+        idxw = force_idxw
     g = Gen15(rng, vocab=vocab, allow_float=allow_float, int_types=int_types, ext_calls=rng.random() < 0.3,
-              safe_div=0.85)
+              safe_div=0.85, idxw=idxw)
     cfg = rng.random() < 0.45
-    text, ats, rts = g.program(cfg=cfg, nhelpers=rng.choice([0, 0, 1, 2]), rec=rng.random() < 0.2)
-    return text, ats, rts
+    text, ats, rts = g.program(cfg=cfg, nhelpers=rng.choice([0, 0, 1, 2]), rec=rng.random() < 0.2,
+                               crec=rng.random() < 0.2, mrec=rng.random() < 0.15)
+    return text, ats, rts, idxw, sorted(g.features)
 
 
 def observed(O, vals, types):
@@ -1443,8 +1555,9 @@ def observed(O, vals, types):
     return out, None
 
 
-def run_program(E, R, O, text, rows, prog_id):
+def run_program(E, R, O, text, rows, prog_id, idxw=64):
     """Parse one program, run every argument row through refsem and the (monitored + plain) interpreter."""
+    O.set_idxw(idxw)
     module = E.Parser(E.new_ctx(), text).parse_module()
     module.verify()
     main = None
@@ -1475,13 +1588,14 @@ def run_program(E, R, O, text, rows, prog_id):
         jargs = [jval(a) for a in args]
         mon = Monitor(E, R, O, text)
         mon.args = jargs
-        it = E.MonInterp(module, index_bitwidth=64)
+        it = E.MonInterp(module, index_bitwidth=idxw)
         it.xv_mon = mon
         for fc in E.fn_classes:
             it.register_implementations(fc())
         it.register_implementations(E.ExtFns())
         del E.extlog[:]
-        wit = {"program": text, "args": jargs, "replay_job": {"kind": "prog1", "text": text, "args": jargs}}
+        wit = {"program": text, "args": jargs, "index_bitwidth": idxw,
+               "replay_job": {"kind": "prog1", "text": text, "args": jargs, "idxw": idxw}}
         try:
             got = it.call_op("main", args)
         except E.InterpretationError as e:
@@ -1522,7 +1636,7 @@ def run_program(E, R, O, text, rows, prog_id):
             R.viol(f"program-extcall-log-mismatch:{ctl}", f"external calls {ilog!r}, reference {elog!r}", wit)
         if mon.interventions == 0:
             # the monitor never intervened: a plain Interpreter must behave identically
-            plain = E.Interpreter(module, index_bitwidth=64)
+            plain = E.Interpreter(module, index_bitwidth=idxw)
             for fc in E.fn_classes:
                 plain.register_implementations(fc())
             plain.register_implementations(E.ExtFns())
@@ -1546,10 +1660,21 @@ def work_prog(E, R, job):
     rng = random.Random(job["seed"])
     for k in range(job["n"]):
         profile = "sup" if rng.random() < job.get("p_sup", 0.65) else "full"
-        text, ats, rts = gen_program(E, rng, profile)
+        # the first Interpreter of the process alternates between the index widths from shard to shard, the first
+        # programs use both widths, later ones pick at random
+        first = 32 if job["seed"] % 2 else 64
+        text, ats, rts, idxw, feats = gen_program(E, rng, profile, first if k == 0 else 96 - first if k == 1 else None)
         rows = genprog.gen_inputs(rng, ats, job["rows"]) if ats else [[]]
+        if idxw == 32:
+            rows = [[rng.choice([0, 1, 0xFFFFFFFF, 0x80000000, 0x7FFFFFFF, 2, 3, 5, rng.getrandbits(32), rng.getrandbits(32)])
+                     if t == "index" else v for v, t in zip(row, ats)] for row in rows]
         R.inc("programs_profile_" + profile)
-        run_program(E, R, O, text, rows, (job["seed"], k))
+        R.inc(f"programs_index{idxw}")
+        d, sup = run_program(E, R, O, text, rows, (job["seed"], k), idxw)
+        for f in feats:
+            R.inc("programs_with:" + f)
+            if d and sup:
+                R.inc("programs_compared_with:" + f)
         if k < 1:
             R.res["samples"].append({"program": text, "first_args": [jval(x) for x in rows[0]]})
 
@@ -1560,8 +1685,9 @@ def work_prog1(E, R, job):
     module = E.Parser(E.new_ctx(), text).parse_module()
     main = [o for o in module.walk() if o.name == "func.func" and o.properties["sym_name"].data == "main"][0]
     in_types = list(main.properties["function_type"].inputs.data)
+    O.set_idxw(job.get("idxw", 64))
     row = [O.to_ref(unjval(a), t, "replay arg") for a, t in zip(job["args"], in_types)]
-    run_program(E, R, O, text, [row], ("replay", 0))
+    run_program(E, R, O, text, [row], ("replay", 0), job.get("idxw", 64))
 
 
 # ----------------------------------------------------------------------------------------------- plan / work
@@ -1594,7 +1720,7 @@ def plan(tier, seed):
     for k, (spec, idxw) in enumerate([("i1", 64), ("i2", 64), ("i4", 64), ("i8", 64), ("i32", 64), ("i64", 64),
                                       ("index", 32), ("index", 64)]):
         jobs.append({"kind": "chain", "tspec": spec, "idxw": idxw, "seed": base + 70 + k, "nrand": 20 if q else 200})
-    nprog_jobs, nper, rows = (24, 22, 6) if q else (64, 800, 8)
+    nprog_jobs, nper, rows = (24, 22, 6) if q else (64, 500, 8)
     for j in range(nprog_jobs):
         jobs.append({"kind": "prog", "seed": base + 1000 + j, "n": nper, "rows": rows})
     return jobs
@@ -1626,9 +1752,15 @@ def finish(agg, tier):
                          ("anchor:Interpreter.call_op", 500), ("anchor:Interpreter.run_ssacfg_region", 1000)):
         if c.get("reach:" + anchor, 0) < need:
             inc.append(f"{anchor} entered only {c.get('reach:' + anchor, 0)} times")
-    for k, need in (("op_results_compared", 40000 if q else 1000000), ("prog_rows_compared", 800 if q else 40000),
-                    ("programs_nontrivial", 150 if q else 8000), ("prog_op_executions_compared", 5000),
+    for k, need in (("op_results_compared", 40000 if q else 1000000), ("prog_rows_compared", 800 if q else 25000),
+                    ("programs_nontrivial", 150 if q else 5000), ("prog_op_executions_compared", 5000),
                     ("prog_rows_confirmed_by_unmonitored_run", 50)):
+        if c.get(k, 0) < need:
+            inc.append(f"{k} = {c.get(k, 0)} < {need}")
+    for k, need in (("programs_compared_with:cf-recursion-direct", 15 if q else 1000),
+                    ("programs_compared_with:cf-recursion-mutual", 12 if q else 800),
+                    ("programs_index32", 60 if q else 5000), ("programs_index64", 60 if q else 5000),
+                    ("interpreters_created_index32", 40), ("interpreters_created_index64", 40)):
         if c.get(k, 0) < need:
             inc.append(f"{k} = {c.get(k, 0)} < {need}")
     for opn in ("scf.for", "scf.if", "scf.yield", "cf.br", "cf.cond_br", "func.call", "func.return"):
